@@ -288,6 +288,8 @@ def check_property(pid, tier, seed):
         if nr.get("error"):
             errors.append("native run failed for %s[%s]: %s" % (tb[0], tb[1], nr["error"][-300:]))
             continue
+        if nr.get("errors"):
+            errors.append("native harness errors for %s[%s]: %s" % (tb[0], tb[1], str(nr["errors"][0])[-300:]))
         if nr.get("failures") and tb not in native_fail_reported:
             w = nr["failures"][0]
             k = match_known(known, "native:%s[%s]/%s" % (tb[0].split("::")[1], tb[1], w["clause"]), w)
